@@ -7,7 +7,7 @@
    entry is coherent. *)
 Definition eqb_strs : list string -> list string -> bool := eqb_list String.eqb.
 Definition det_case : Type :=
-  list string * (nat * nat * (string -> bool)) * list (dop string) * list (nat * list string) * list string * bool.
+  coin * list string * (nat * nat * (string -> bool)) * list (dop string) * list (nat * list string) * list string * bool.
 
 Definition det_state_ok (table : list string) (total : nat) (o : nat * list string) : bool :=
   eqb_strs (snd o) (firstn total table) && Nat.eqb (List.length (snd o)) total
@@ -27,7 +27,7 @@ Fixpoint det_walk (table : list string) (m : nat) (ops : list (dop string)) (obs
   | _, _ => None
   end.
 Definition det_ok (c : det_case) : bool :=
-  let '(table, (gn, sn, act0), ops, obs, single, coherent) := c in
+  let '(_, table, (gn, sn, act0), ops, obs, single, coherent) := c in
   match obs with
   | [] => false
   | x0 :: obs' =>
@@ -45,7 +45,7 @@ Definition pf_det := Eval vm_compute in failing det_ok cases_det.
 Print pf_det.
 
 Definition idx_case : Type :=
-  list (list string) * nat * list (iop string) * list (iop string) * list (list (list string)) * list (list string) * bool.
+  coin * list (list string) * nat * list (iop string) * list (iop string) * list (list (list string)) * list (list string) * bool.
 (* totals per chain *)
 Fixpoint bump (j n : nat) (ms : list nat) : list nat :=
   match ms, j with
@@ -66,6 +66,7 @@ Definition idx_next (tables : list (list string)) (ms : list nat) (o : iop strin
   | ILock => ms
   | IUnlock => ms
   | IFailed => ms
+  | INewAccount => ms ++ [0; 0]
   end.
 Fixpoint chains_are (tables : list (list string)) (ms : list nat) (cs : list (list string)) : bool :=
   match ms, tables, cs with
@@ -82,7 +83,7 @@ Fixpoint idx_walk (tables : list (list string)) (ms : list nat) (ops : list (iop
   | _, _ => None
   end.
 Definition idx_ok (c : idx_case) : bool :=
-  let '(tables, nchains, init_ops, ops, obs, single, coherent) := c in
+  let '(_, tables, nchains, init_ops, ops, obs, single, coherent) := c in
   match obs with
   | [] => false
   | x0 :: obs' =>
